@@ -1,8 +1,10 @@
-(* C08, cross-radix normalisation with a non-negative offset: the value theorem. *)
+(* C08, cross-radix normalisation with a non-negative offset: the value theorem (w = 64).
+   The proof is done once for every word width in Proofs/C08WCrossTheorem.v (`normalize_cross_c_value_pos`);
+   this file keeps the width-64 statement under its name, as an instance. *)
 From PV Require Import Base.MachineInt Model.Znx Model.Limbs Model.C08Oracle
   Proofs.ZnxDigit Proofs.C08Steps Proofs.C08Chain Proofs.C08Loops Proofs.C08Value Proofs.C08Normalize
   Proofs.C08Shift Proofs.C08ShiftValue Proofs.C08CrossInner Proofs.C08CrossGeom Proofs.C08CrossOuter
-  Proofs.C08CrossLoop Proofs.C08CrossMain.
+  Proofs.C08CrossLoop Proofs.C08CrossMain Proofs.C08WCrossTheorem.
 Open Scope Z_scope.
 
 Section Thm.
@@ -16,138 +18,8 @@ Theorem normalize_cross_value (off : Z) (a r0 : list Z) : 0 <= off -> hr62 a ->
       let D := tor_abs P (val_scaled P rb out - val_scaled (P + off) ab a) in
       D <= 2 ^ (P - zn (length r0) * rb) /\ (zn (length a) * ab - off <= zn (length r0) * rb -> D = 0).
 Proof.
-  intros Hoff Ha. apply hrl_of_Forall in Ha.
-  unfold normalize_cross.
-  destruct (split_offset ab off) as [lsh lo] eqn:Esp.
-  rewrite (split_offset_spec ab off ltac:(lia)) in Esp.
-  assert (Hl : 0 <= lsh < ab) by (injection Esp as <- _; apply Z.mod_pos_bound; lia).
-  assert (Hlo : 0 <= lo) by (injection Esp as _ <-; apply Z.div_pos; lia).
-  assert (Eoff : lo * ab + lsh = off).
-  { injection Esp as <- <-. pose proof (Z.div_mod off ab ltac:(lia)). lia. }
-  clear Esp.
-  set (rsz := length r0). set (asz := length a).
-  set (res_start := Z.to_nat (div_ceil (clampZ (zn asz * ab - lo * ab) 0 (zn rsz * rb)) rb)).
-  set (a_start := Z.to_nat (div_ceil (clampZ (zn rsz * rb + lo * ab) 0 (zn asz * ab)) ab)).
-  set (take := (zn asz * ab - clampZ (zn rsz * rb + lo * ab) 0 (zn asz * ab)) mod ab).
-  set (m := (zn rsz * rb - clampZ (zn asz * ab - lo * ab) 0 (zn rsz * rb)) mod rb).
-  set (a_end := Z.to_nat (clampZ (lo * ab) 0 (zn asz * ab) / ab)).
-  assert (Hloab : 0 <= lo * ab) by (apply Z.mul_nonneg_nonneg; lia).
-  assert (HRrb : 0 <= zn rsz * rb) by (apply Z.mul_nonneg_nonneg; unfold zn; lia).
-  assert (Eend : Z.to_nat (clampZ (- lo * ab) 0 (zn rsz * rb) / rb) = 0%nat).
-  { unfold clampZ. replace (Z.max 0 (Z.min (- lo * ab) (zn rsz * rb))) with 0 by lia. reflexivity. }
-  rewrite Eend. clear Eend.
-  destruct (Nat.eqb_spec res_start 0) as [Ers0|Ers0].
-  - (* nothing of a reaches res *)
-    exists (zeros rsz). split; [reflexivity|]. split; [apply zeros_length|].
-    intros P HP. rewrite <- Eoff in HP |- *.
-    apply (zero_value rb ab Hrb Hab P lo lsh a rsz Hl Hlo); [|fold asz; lia].
-    apply (res_start_zero rb ab lo asz rsz); [lia|lia|lia|exact Ers0].
-  - pose proof (cross_geom rb ab lo asz rsz ltac:(lia) ltac:(lia) Hlo) as G. cbv zeta in G.
-    fold res_start a_start take m a_end in G.
-    destruct (G Ers0) as (z & g & Hz & Hg & Hzg & HloA & Hgeo & Hast & Eaend & Hmid & Eg & Htake & Hm & Hrs & Ez & Htk & Hzp).
-    clear G. clearbody res_start a_start take m a_end.
-    cbn [c_res c_anorm c_acarry c_rcarry c_atake c_racc c_rlimb].
-    assert (Hab1 : 1 <= ab) by lia.
-    set (a_out := (asz - a_start)%nat) in *.
-    rewrite (carry_phase_car ab Hab lsh a asz a_out Hl Ha).
-    pose proof (car_low ab lsh a a_out ltac:(unfold a_out, asz; lia)) as CL. fold asz in CL. rewrite CL. clear CL.
-    set (ac0 := car ab (vin a lsh) 0 a_out).
-    assert (Hac0 : Z.abs ac0 <= 2 ^ 62) by (apply (car_vin_hr ab Hab); auto).
-    pose proof (chain_sum ab Hab1 (vin a lsh) 0 a_out) as HC. rewrite Z.add_0_r in HC. fold ac0 in HC.
-    change (sumn a_out (fun t => vin a lsh t * 2 ^ (zn t * ab))) with (Lval ab a lsh a_out) in HC.
-    pose proof (digits_small ab Hab1 (dig ab (vin a lsh) 0) a_out ltac:(intros; apply dig_range; auto)) as HD.
-    set (Dlow := sumn a_out (fun t => dig ab (vin a lsh) 0 t * 2 ^ (zn t * ab))) in *.
-    assert (H0 : a_out = 0%nat -> ac0 = 0 /\ Dlow = 0).
-    { intros E. unfold ac0, Dlow. rewrite E. split; reflexivity. }
-    clearbody ac0 Dlow.
-    set (fuel := (Z.to_nat ab + Z.to_nat rb + 4)%nat).
-    assert (Hfuel : ab <= Z.of_nat fuel) by (unfold fuel; lia). clearbody fuel.
-    set (s0 := {| c_res := zeros rsz; c_anorm := 0; c_acarry := ac0; c_rcarry := 0; c_atake := 0;
-                  c_racc := rb; c_rlimb := (res_start - 1)%nat |}).
-    assert (Hlo' : 0 <= lo < zn (length a)) by (fold asz; lia).
-    assert (Hgeo' : (zn (length a) - lo) * ab = zn rsz * rb + g - z) by (fold asz; exact Hgeo).
-    match goal with |- context [fold_left ?f (seq 0 ?n) ?init] =>
-      pose proof (fold_left_seq_ind f (fun j (acc : cstate * bool * bool) =>
-        snd acc = false /\
-        (snd (fst acc) = true -> Final rb ab a lsh rsz z g (c_res (fst (fst acc)))) /\
-        (snd (fst acc) = false ->
-           (j = 0%nat /\ fst (fst acc) = s0) \/
-           ((1 <= j)%nat /\ Outer rb ab a lsh rsz z g (a_out + j) (fst (fst acc))))) n init) as HI
-    end.
-    destruct HI as (I1 & I2 & I3).
-    + cbn [fst snd]. split; [reflexivity|]. split; [discriminate|]. intros _. left. split; reflexivity.
-    + intros j [[s brk] bad] Hj (Ibad & Ibrk & Inb). cbn [fst snd] in Ibad, Ibrk, Inb. subst bad.
-      destruct brk; cbn [orb].
-      * cbn [fst snd]. split; [reflexivity|]. split; [intros _; apply Ibrk; reflexivity|discriminate].
-      * specialize (Inb eq_refl). clear Ibrk.
-        replace (a_start - j - 1)%nat with (length a - 1 - (a_out + j))%nat by (unfold a_out, asz in *; lia).
-        set (t := (a_out + j)%nat).
-        assert (Ht : (t < length a)%nat) by (unfold t, a_out, asz in *; lia).
-        assert (Htl : zn t + 1 <= zn (length a) - lo) by (unfold t, a_out, asz, zn in *; lia).
-        (* common ending: from the entry invariant of the actual inner-loop state *)
-        assert (Hfin : forall st,
-          Entry rb ab a lsh rsz z g t st ->
-          let r := cross_inner 64 fuel rb ab (length a - 1 - t) st in
-          let acc' := let (s3, c) := r in
-                      match c with InnerDone => (s3, false, false) | OuterBreak => (s3, true, false)
-                                 | Fuel => (s3, false, true) end in
-          snd acc' = false /\
-          (snd (fst acc') = true -> Final rb ab a lsh rsz z g (c_res (fst (fst acc')))) /\
-          (snd (fst acc') = false ->
-             (S j = 0%nat /\ fst (fst acc') = s0) \/
-             ((1 <= S j)%nat /\ Outer rb ab a lsh rsz z g (a_out + S j) (fst (fst acc'))))).
-        { intros st HE. cbv zeta.
-          destruct (entry_step rb ab Hrb Hab a lsh Hl rsz z g lo Hz Hg Hzg Hlo' Hgeo' t st fuel HE Ht Htl Hfuel)
-            as (C1 & C2 & C3). cbv zeta in C1, C2, C3.
-          destruct (cross_inner 64 fuel rb ab (length a - 1 - t) st) as [s3 [| |]]; cbn [fst snd] in *.
-          - split; [reflexivity|]. split; [discriminate|]. intros _. right. split; [lia|].
-            replace (a_out + S j)%nat with (S t) by (unfold t; lia). apply C2. reflexivity.
-          - split; [reflexivity|]. split; [intros _; apply C3; reflexivity|discriminate].
-          - exfalso. apply C1. reflexivity. }
-        destruct Inb as [[Ej Es]|[Hj1 HO]].
-        -- (* first iteration *)
-           subst j s.
-           assert (Et : t = a_out) by (unfold t; lia). clearbody t. subst t.
-           cbn [Nat.eqb]. unfold s0. cbn [c_res c_anorm c_acarry c_rcarry c_atake c_racc c_rlimb].
-           destruct (Z.eqb_spec take 0) as [Et0|Et0]; cbn [negb].
-           ++ assert (Eg0 : g = zn a_out * ab) by (rewrite Eg, Et0; ring).
-              destruct (Z.eqb_spec m 0) as [Em0|Em0]; cbn [negb].
-              ** pose proof (first_outer rb ab Hab a lsh Hl rsz z g Hz Hg a_out res_start 0 rb ac0 Dlow 0 0
-                   Hrs ltac:(lia) ltac:(lia) ltac:(rewrite <- Ez, Em0; ring) Eg0 HC HD Hac0
-                   ltac:(intros E; apply H0; exact E)) as HO0.
-                 pose proof (next_entry rb ab Hrb Hab a Ha lsh Hl rsz z g Hz Hg a_out _ HO0 Ht) as HE.
-                 cbv zeta in HE. cbn [c_res c_anorm c_acarry c_rcarry c_atake c_racc c_rlimb] in HE.
-                 destruct (middle_step 64 true ab lsh 0 (nthZ a (length a - 1 - a_out)) ac0) as [an ac].
-                 cbn [fst snd] in HE. apply (Hfin _ HE).
-              ** pose proof (first_outer rb ab Hab a lsh Hl rsz z g Hz Hg a_out res_start m (rb - m) ac0 Dlow 0 0
-                   Hrs Hm eq_refl Ez Eg0 HC HD Hac0 ltac:(intros E; apply H0; exact E)) as HO0.
-                 pose proof (next_entry rb ab Hrb Hab a Ha lsh Hl rsz z g Hz Hg a_out _ HO0 Ht) as HE.
-                 cbv zeta in HE. cbn [c_res c_anorm c_acarry c_rcarry c_atake c_racc c_rlimb] in HE.
-                 destruct (middle_step 64 true ab lsh 0 (nthZ a (length a - 1 - a_out)) ac0) as [an ac].
-                 cbn [fst snd] in HE. apply (Hfin _ HE).
-           ++ destruct (Htk Et0) as [Ez0 Ers]. subst res_start.
-              pose proof (first_take rb ab Hrb Hab a Ha lsh Hl rsz z g Hg a_out take ac0 Dlow
-                   ltac:(lia) Ez0 Eg ltac:(lia) Ht HC HD Hac0 H0) as HE.
-              cbv zeta in HE.
-              destruct (middle_step 64 true ab lsh 0 (nthZ a (length a - 1 - a_out)) ac0) as [an ac].
-              cbn [fst snd] in HE. apply (Hfin _ HE).
-        -- (* later iterations *)
-           destruct (Nat.eqb_spec j 0) as [|_]; [lia|].
-           pose proof (next_entry rb ab Hrb Hab a Ha lsh Hl rsz z g Hz Hg t s HO Ht) as HE.
-           cbv zeta in HE.
-           destruct (middle_step 64 true ab lsh 0 (nthZ a (length a - 1 - t)) (c_acarry s)) as [an ac].
-           cbn [fst snd] in HE. apply (Hfin _ HE).
-    + destruct (fold_left _ (seq 0 (a_start - a_end)) (s0, false, false)) as [[s brk] bad].
-      cbn [fst snd] in I1, I2, I3. subst bad. cbn [Nat.eqb].
-      assert (HF : Final rb ab a lsh rsz z g (c_res s)).
-      { destruct brk; [apply I2; reflexivity|].
-        destruct (I3 eq_refl) as [[E _]|[_ HO]]; [lia|].
-        apply (outer_final rb ab Hab a lsh rsz z g Hz Hg lo (a_out + (a_start - a_end)) s Hlo Hgeo'); [|exact HO].
-        unfold a_out, asz, zn in *. lia. }
-      exists (c_res s). split; [reflexivity|]. split; [apply HF|].
-      intros P HP. rewrite <- Eoff in HP |- *.
-      apply (final_value rb ab Hrb Hab a lsh Hl rsz z g Hz Hg Hzg lo P (c_res s) Hlo Hgeo' ltac:(lia) HF).
-      fold asz. exact HP.
+  intros Hoff Ha. rewrite normalize_cross_is_c128.
+  exact (normalize_cross_c_value_pos 64 128 rb ab Hrb Hab off a r0 Hoff Ha).
 Qed.
 
 End Thm.
